@@ -9,6 +9,7 @@ pub fn generate(family: &str, seed: u64) -> Program {
         "api" => api(seed),
         "build" => build(seed),
         "two" => two(seed),
+        "long" | "fleet" => crate::gen5::generate(family, seed),
         _ => {
             eprintln!("simcheck: unknown family {family}");
             std::process::exit(2);
